@@ -61,6 +61,7 @@ type caseT struct {
 	Source     string // install: file | dir
 	Overwrite  bool
 	Absent     bool // uninstall: no directory of that name exists (the call must fail and change nothing)
+	LinkOut    bool // uninstall: <root>/<name> is a symbolic link to a directory outside the plugin root (only the link may go)
 	LinkedRoot bool // list: the plugin root itself is reached through a symbolic link (libexec on another volume, a dotfile manager)
 }
 
@@ -90,7 +91,7 @@ func main() {
 	r := lib.Start("C16", "exploration")
 	r.Rule = "names from a traversal grammar (../ runs of depth 1-8 x tails, a/../../b shapes, ./x, x/., trailing slash, absolute-looking, dot, dot-dot, empty, NUL) plus valid controls, against plugin roots at depth 1/3/6, through Get+GetMetadata, Uninstall, Install from file and from directory (file names notation-.. / notation-.), List over roots with files/symlinks/nested directories, and verifier.Verify with the real CLIManager (JWS and COSE; audit with an untrusted signer, strict with a trusted one); one chrooted child per case; distinct by (operation, name, depth, format, level); non-trivial = names that are not a single path component"
 	r.Assumptions = []string{"ground truth is lexical (single path component or not), independent of what exists on disk",
-		"names containing a backslash, '...', over-long names are not judged; execution of the install SOURCE file itself is not judged (only sentinels elsewhere, success, and file-system changes)",
+		"names containing a backslash, '...', over-long names are not judged; for a valid name the install source is run to read its metadata (for a rejected name nothing runs, the source included)",
 		"chroot is permitted in the sandbox (checked at start; otherwise the run is inconclusive)"}
 	scratch := lib.TempDir("c16")
 	r.OnExit(func() { os.RemoveAll(scratch) })
@@ -129,6 +130,9 @@ func main() {
 		}
 		for _, n := range append(append(append([]string{}, valid...), wrapped...), prefixed...) {
 			cases = append(cases, caseT{Op: "uninstall", Name: n, Depth: depth, Absent: true})
+		}
+		for _, n := range []string{"good3", "linked.plugin", "notation-x"} {
+			cases = append(cases, caseT{Op: "uninstall", Name: n, Depth: depth, LinkOut: true})
 		}
 		for _, fn := range []string{"..", ".", "good2", "evil", ".. ", " ."} {
 			for _, ow := range []bool{false, true} {
@@ -244,7 +248,12 @@ func main() {
 			}
 		case "uninstall":
 			victim := filepath.Join(root, c.Name)
-			if !strings.Contains(c.Name, "\x00") && inside(jail, victim) && !c.Absent {
+			if c.LinkOut {
+				os.MkdirAll(J("/elsewhere/victim-dir"), 0o755)
+				os.WriteFile(J("/elsewhere/victim-dir/precious.txt"), []byte("precious"), 0o644)
+				os.MkdirAll(J(root), 0o755)
+				os.Symlink("/elsewhere/victim-dir", J(victim))
+			} else if !strings.Contains(c.Name, "\x00") && inside(jail, victim) && !c.Absent {
 				os.MkdirAll(J(victim), 0o755)
 				os.WriteFile(J(filepath.Join(victim, "victim.txt")), []byte("victim"), 0o644)
 			}
@@ -269,9 +278,8 @@ func main() {
 			}
 			sp.Name = c.Name
 			isValid = lexicallyValid(c.Name)
-			allowedPrefix = append(allowedPrefix, src+".executed")
 			if isValid {
-				allowedPrefix = append(allowedPrefix, filepath.Join(root, c.Name))
+				allowedPrefix = append(allowedPrefix, src+".executed", filepath.Join(root, c.Name))
 			}
 		case "list":
 			os.MkdirAll(J(filepath.Join(root, "b.c", "inner")), 0o755)
@@ -338,7 +346,7 @@ func main() {
 		}
 		key := ""
 		if !isValid && c.Op != "list" {
-			key = fmt.Sprintf("%s|%q|%d|%s|%s|%s|%v", c.Op, c.Name, c.Depth, c.Format, c.Level, c.Source, c.Absent)
+			key = fmt.Sprintf("%s|%q|%d|%s|%s|%s|%v", c.Op, c.Name, c.Depth, c.Format, c.Level, c.Source, c.Absent || c.LinkOut)
 		}
 		r.Eval(key)
 		wit := map[string]any{"case": c, "name_quoted": fmt.Sprintf("%q", c.Name), "result": res, "fs_changes": diff, "plugin_root": root}
@@ -369,10 +377,7 @@ func main() {
 			}
 			var foreign []string
 			for _, m := range markers {
-				if c.Op == "install" && strings.HasPrefix(m, "/src/") {
-					continue
-				}
-				foreign = append(foreign, m)
+				foreign = append(foreign, m) // for a rejected name NOTHING runs - not even the install source that carries the name
 			}
 			if len(foreign) > 0 {
 				r.Violation(sig("process-executed"), fmt.Sprintf("%s with name %q executed %v", c.Op, c.Name, foreign), wit)
